@@ -49,14 +49,15 @@ func (t *TextTemplater) Apply(payload []byte, metadata map[string]string, variab
 
 func (t *TextTemplater) getTemplate(tmplBody, scenarioName, stepName, key string) (*template.Template, error) {
 	urlKey := fmt.Sprintf("%s_%s_%s", scenarioName, stepName, key)
-	tmpl, ok := t.templatesCache.Load(urlKey)
+	// Cache by template text: names are ambiguous (joined with "_", header/metadata key can be equal to other part name).
+	tmpl, ok := t.templatesCache.Load(tmplBody)
 	if !ok {
 		var err error
 		tmpl, err = template.New(urlKey).Funcs(templater.GetFuncs()).Parse(tmplBody)
 		if err != nil {
 			return nil, fmt.Errorf("scenario/TextTemplater.Apply, template.New, %w", err)
 		}
-		t.templatesCache.Store(urlKey, tmpl)
+		t.templatesCache.Store(tmplBody, tmpl)
 	}
 	return tmpl.(*template.Template), nil
 }
